@@ -15,9 +15,9 @@ A = {
 
 T = {
     "DFT": "DFT contract (DESIGN 3.2): fft2/ifft2 are the (un)normalised discrete Fourier sums; opaque in every VC",
-    "D1": "textbook lemma D1 (DC bin <-> mean) assumed", "D2": "textbook lemma D2 (linearity of the DFT) assumed",
-    "D3": "textbook lemma D3 (shift theorem) assumed", "D4": "textbook lemma D4 (convolution / reciprocity, DESIGN B.2) assumed",
-    "D5": "textbook lemma D5 (reflection, transposition) assumed",
+    "D1": "lemma D1 (DC bin <-> mean): proved in Lean 4 + Mathlib from the DFT sums of the transform contract (lemmas/DFT.lean, checked in the thorough tier); conformance of the installed FFT layer to those sums is bounded", "D2": "lemma D2 (linearity of the DFT): proved in Lean from the DFT sums (lemmas/DFT.lean)",
+    "D3": "lemma D3 (shift theorem): proved in Lean from the DFT sums (lemmas/DFT.lean)", "D4": "lemma D4 (convolution / reciprocity, DESIGN B.2, incl. offset = translation): proved in Lean from the DFT sums (lemmas/DFT.lean)",
+    "D5": "lemma D5 (reflection, mirror, transposition; analysis and synthesis side): proved in Lean from the DFT sums (lemmas/DFT.lean)",
     "LCONV": "textbook theorem L-conv (a consistent, stable one-step method converges with its order; DESIGN B.3) assumed, not mechanised",
     "IVPC": "contract IVP of ivp_solver used at its two call sites in S (verified separately in this same run)",
     "Z3": "z3 (LIA/EUF/NRA) and the exact polynomial-identity normaliser of pyvc.valueview / pyvc.stepalg",
@@ -40,25 +40,25 @@ PROPERTIES = {
         "level_note": "A1-A8; theorem L-conv assumed; rate measured only on the bounded family of bounded/C01.py.",
     },
     "C02": {
-        "modules": ["solver", "lemmas", "purity", "utilsc", "ivp", "cachec"], "level": "proof", "floor": 1500,
+        "modules": ["solver", "lemmas", "purity", "utilsc", "ivp", "cachec"], "lean": "lemmas/DFT.lean", "level": "proof", "floor": 1500,
         "assumptions": SOLVER_ASSUME, "trusted": [T["Z3"], T["D4"], T["DFT"], T["IVPC"]],
         "explanation": "With a cache handed to the solve, two footprint requests whose lookup keys are equal have equal spectra, crops and grids (2-safety obligation rel.equal-keys-* over two symbolic runs of S: a request for one halo width is never served the Green's function of another). Reciprocity holds iff (B.2) both modes share the retained set and transfer functions, the footprint spectrum is H/N times cis(kappa.(r_m + P)) with P the PADDED offset (px*dx, py*dy), the footprint is transformed with the e^{-i} sums, and both are cropped by the pad widths: these are clauses of SC/TC proved on the code for symbolic sizes, halos (incl. None and incommensurate), truncations, levels and profiles; point_measurement returns sum(f*g).",
-        "level_text": "All clauses the DFT reciprocity computation needs are postconditions of the real solver proved for all inputs; the computation itself (D4) is textbook and assumed.",
-        "level_note": "A1-A8, D4 assumed (native conformance in bounded/C02.py); closures/precisions enter only through symbolic profiles and A1.",
+        "level_text": "All clauses the DFT reciprocity computation needs are postconditions of the real solver proved for all inputs; the computation itself (D4) is a Lean 4 + Mathlib lemma over the transform contract (lemmas/DFT.lean, thorough tier).",
+        "level_note": "A1-A8; D4 proved in Lean from the DFT sums (native conformance of the FFT layer to the sums: bounded/dft_conformance.py); closures/precisions enter only through symbolic profiles and A1.",
     },
     "C03": {
-        "modules": ["solver", "lemmas", "ivp", "purity"], "level": "proof", "floor": 1500,
+        "modules": ["solver", "lemmas", "ivp", "purity"], "lean": "lemmas/DFT.lean", "level": "proof", "floor": 1500,
         "assumptions": SOLVER_ASSUME, "trusted": [T["Z3"], T["D1"], T["DFT"], T["IVPC"]],
         "explanation": "DC clauses of SC: fftq[k,0,0] = S00 for every level (numeric and analytic), fftp[k,0,0] = p000 - S00*R(level_k) with R the trapezoid resistance (loop invariant of the mean-mode loop) or h/Kz (analytic), phase = 1 at DC; footprint source = 1/(nxe*nye) so N*DC = 1; halo == explicit padding as a lemma over the contract (same dx, dy, padded sizes, spectra; crop).",
-        "level_text": "Conservation statements are postconditions/loop invariants of the real solver proved for all inputs; mean <-> DC bin is textbook (D1).",
-        "level_note": "A1-A8, D1 assumed.",
+        "level_text": "Conservation statements are postconditions/loop invariants of the real solver proved for all inputs; mean <-> DC bin (D1) is a Lean lemma over the transform contract.",
+        "level_note": "A1-A8; D1 proved in Lean (lemmas/DFT.lean).",
     },
     "C04": {
-        "modules": ["solver", "ivp", "lemmas", "purity"], "level": "proof", "floor": 700,
+        "modules": ["solver", "ivp", "lemmas", "purity"], "lean": "lemmas/DFT.lean", "level": "proof", "floor": 700,
         "assumptions": SOLVER_ASSUME, "trusted": [T["Z3"], T["D2"], T["DFT"], T["IVPC"]],
         "explanation": "SC gives fftq = ret*S*Hq*Phi and fftp = ret*(DC ? p000 - S00*R : S*Hp)*Phi with Hq, Hp, R, Phi, ret free of the source and of the background (frame: the specification terms do not mention q0/p000; the code equals them); ivp_solver is linear in its initial state (extracted step); bilinearity lemma over SC; footprint mode has S = 1/N (no source values).",
-        "level_text": "Linearity is a consequence of the spectral contract proved on the real code plus linearity of the DFT (D2, textbook).",
-        "level_note": "A1-A8, D2 assumed.",
+        "level_text": "Linearity is a consequence of the spectral contract proved on the real code plus linearity of the DFT (D2, Lean lemma).",
+        "level_note": "A1-A8; D2 proved in Lean (lemmas/DFT.lean).",
     },
     "C05": {
         "modules": ["ivp", "solver", "lemmas", "purity"], "level": "proof", "floor": 500,
@@ -68,18 +68,18 @@ PROPERTIES = {
         "level_note": "A1-A8; L-conv assumed for the corollary.",
     },
     "C06": {
-        "modules": ["solver", "lemmas", "purity", "ivp"], "level": "proof", "floor": 700,
+        "modules": ["solver", "lemmas", "purity", "ivp"], "lean": "lemmas/DFT.lean", "level": "proof", "floor": 700,
         "assumptions": SOLVER_ASSUME, "trusted": [T["Z3"], T["D3"], T["D5"], T["DFT"], T["IVPC"]],
         "explanation": "SC: transfer functions independent of source and measurement point; phase factors exactly cis(kappa.(r_m+P)) (footprint) and cis(kappa.(r_m - L/2)) iff r_m != 0 (dispersion); wavenumbers built from dx, dy and the PADDED sizes on the right axes; transform directions (TC). Whole-cell shifts are integer multiples of the bin angle (lemma). Translation then follows by the shift theorem D3 / reflection D5.",
-        "level_text": "All code-level clauses proved for all inputs; the DFT shift/reflection theorems are textbook.",
-        "level_note": "A1-A8, D3/D5 assumed.",
+        "level_text": "All code-level clauses proved for all inputs; the DFT shift/reflection theorems are Lean lemmas over the transform contract (lemmas/DFT.lean).",
+        "level_note": "A1-A8; D3/D5 proved in Lean (lemmas/DFT.lean).",
     },
     "C07": {
-        "modules": ["solver", "ivp", "symmetry", "purity"], "level": "proof", "floor": 650,
+        "modules": ["solver", "ivp", "symmetry", "purity"], "lean": "lemmas/DFT.lean", "level": "proof", "floor": 650,
         "assumptions": SOLVER_ASSUME, "trusted": [T["Z3"], T["D5"], T["DFT"], T["IVPC"]],
         "explanation": "Relational identities on the code's own terms: the extracted step matrix, the eigenvalue argument, the wavenumber grids, retained sets, pad widths and phases under mirror-x/y, axis swap, length similarity and speed similarity; lifted through the layers by induction over Prop (base + step). With D5 the fields mirror/transpose.",
         "level_text": "Symmetry identities are exact polynomial/LIA identities on terms extracted from the real code.",
-        "level_note": "A1-A8, D5 assumed; Nyquist bins excepted as in the statement.",
+        "level_note": "A1-A8; D5 proved in Lean (lemmas/DFT.lean); Nyquist bins excepted as in the statement.",
     },
     "C10": {
         "modules": ["ivp", "solver", "interface", "purity"], "level": "proof", "floor": 1300,
